@@ -3,7 +3,7 @@ package neutrino
 // Free-running executions of the real UtxoScanner for the UtxoScan family
 // (C10): the implementation -> specification direction.
 //
-// Nothing blocks here: the scanner is started with Start(), two to three
+// Nothing blocks here: the scanner's batch manager runs freely, one to three
 // caller goroutines Enqueue at random moments, a goroutine lets blocks arrive,
 // the config callbacks answer at once (with seeded failures / filter false
 // positives and small random delays).  Every execution is recorded at its
@@ -65,6 +65,7 @@ const (
 	uxfSection // end of a critical section of the batch manager that read pq (dequeue / Peek)
 	uxfIdle    // batch manager parks in cv.Wait (+ answered snapshot)
 	uxfRelock  // batch manager re-took the lock after cv.Wait
+	uxfPanic   // batch manager died in a panic (+ answered snapshot)
 )
 
 type uxfEntry struct {
@@ -338,7 +339,7 @@ func (e *uxfEnv) linearise(cid, best0 int, final [][]int) (uxObs, []uxStepOut) {
 		case uxfEnq, uxfNewBlock:
 			external(x)
 			i++
-		case uxfArrive, uxfIdle, uxfSection:
+		case uxfArrive, uxfIdle, uxfSection, uxfPanic:
 			// arrival/idle markers are consumed by the action that ends in
 			// them; a section marker outside a stretch is the initial loop top
 			i++
@@ -346,7 +347,7 @@ func (e *uxfEnv) linearise(cid, best0 int, final [][]int) (uxObs, []uxStepOut) {
 			// one model action: from here to the next arrival / idle marker
 			j := i + 1
 			sec := -1
-			for j < len(log) && log[j].typ != uxfArrive && log[j].typ != uxfIdle {
+			for j < len(log) && log[j].typ != uxfArrive && log[j].typ != uxfIdle && log[j].typ != uxfPanic {
 				if log[j].typ == uxfSection && sec < 0 {
 					sec = j
 				}
@@ -381,13 +382,16 @@ func (e *uxfEnv) linearise(cid, best0 int, final [][]int) (uxObs, []uxStepOut) {
 			end := log[j]
 			if end.typ == uxfIdle {
 				pc, h = uxIdle, 0
+			} else if end.typ == uxfPanic {
+				pc, h = uxPanic, 0
+				a.Res = "panic"
 			} else {
 				pc, h = end.kind, end.h
 				if pc == uxBest0 || pc == uxTail {
 					h = 0
 				}
 			}
-			if x.typ == uxfRelease && x.kind == uxTail && x.res == "ok" {
+			if x.typ == uxfRelease && x.kind == uxTail && x.res == "ok" && pc != uxPanic {
 				if pc == uxHash {
 					a.Res = "more"
 				} else {
@@ -419,7 +423,7 @@ func (e *uxfEnv) waitParked(maxGates int) bool {
 		parked := false
 		for i := len(e.log) - 1; i >= 0; i-- {
 			t := e.log[i].typ
-			if t == uxfIdle {
+			if t == uxfIdle || t == uxfPanic {
 				parked = true
 				break
 			}
@@ -457,10 +461,20 @@ func uxfRun(cd *uxChainData, cfg *uxfCfg, id int) (out uxPathOut) {
 		GetBlock:           e.getBlock,
 	})
 	e.s.cv = sync.NewCond(&uxfLocker{e: e})
-	if err := e.s.Start(); err != nil {
-		out.Error = err.Error()
-		return out
-	}
+	// UtxoScanner.Start, with the goroutine wrapped so that a panic of the
+	// batch manager is an observation instead of the death of the driver
+	atomic.StoreUint32(&e.s.started, 1)
+	e.s.wg.Add(1)
+	go func() {
+		defer func() {
+			if r := recover(); r != nil {
+				e.lmu.Lock()
+				e.log = append(e.log, uxfEntry{typ: uxfPanic, answered: e.snapshot()})
+				e.lmu.Unlock()
+			}
+		}()
+		e.s.batchManager()
+	}()
 	// the model starts with the batch manager parked
 	if !e.waitParked(0) {
 		out.Error = "free run: batch manager did not park after Start\n" + uxDump()
